@@ -9,6 +9,8 @@ def run(ctx):
     # character level: MalformedExactly is one of the invariants of the Lexer configuration
     common.replay_layer(ctx, "MC_Lexer.tla", "MC_Lexer_quick.cfg" if q else "MC_Lexer_thorough6d.cfg", "lexer-replay", "lexer",
                         workers=8 if q else 14, heap="2g" if q else "4g")
+    # the same under a configured comment character (parser.Config.CommentChar = ';')
+    common.replay_layer(ctx, "MC_Lexer.tla", "MC_Lexer_cc.cfg", "lexer-replay", "lexercc", args={"cc": ";"}, workers=8, heap="2g")
     # line level: malformed lines planted at every position, 4 callback policies
     common.replay_layer(ctx, "MC_Parser.tla", "MC_Parser_bad_quick.cfg" if q else "MC_Parser_bad_thorough.cfg", "parser-replay", "parser",
                         args={"variants": 2 if q else 3}, heap="3g" if q else "6g")
